@@ -111,7 +111,7 @@ impl Prop for C15 {
         let mut ch = Choices::new(choices);
         // 1/4 from the LR(1)-not-LALR(1) stratum: Pager re-processes and splits states there
         let c = if ch.chance(1, 4) { gen_case_opts(&mut ch, tier, None, [0, 0, 1, 0]) } else { gen_case(&mut ch, tier) };
-        let text = if c.entry == 1 { c.text[crate::props::c10::header_for(c.kind).len()..].to_string() } else { c.text };
+        let text = c.body().to_string();
         let cross_process = ch.chance(1, 25);
         let mut generated_code = c.kind != YKind::Eco && ch.chance(1, 40);
         let mut lexer = lexer_for(&c.ag.tokens);
